@@ -63,13 +63,13 @@ PROPS["C15"] = make_prop("C15", [ES("C15", "C15", "nodes,order,paths", mode="pat
     COMMON_ASSUME + ["J (harness/src/j.rs) is a faithful implementation of the trait as documented"])
 
 GR = "distinct = distinct sentences; non-trivial = the recogniser gives a verdict (valid/invalid) rather than unscoped"
-PROPS["C06"] = make_prop("C06", [GS("C06", "C06", "accept")],
+PROPS["C06"] = make_prop("C06", [GS("C06", "C06", "accept"), TE("C06", {"outcome"})],
     "every spelling (blank space at every S, both quote styles, every escape form, shorthand/bracket notation, redundant parentheses, number spellings) within a variation budget of the abstract queries of GrammarUniverse, derived by the grammar machine and judged valid by the recogniser, must be accepted by parse_json_path and by JsonPath::query; " + GR,
     COMMON_ASSUME + ["RFC 9535 ABNF transcribed twice (generator Grammar.tla, recogniser JPParse.tla) and cross-checked by TLC"])
-PROPS["C07"] = make_prop("C07", [GS("C07", "C07", "reject,accept")],
+PROPS["C07"] = make_prop("C07", [GS("C07", "C07", "reject,accept"), TE("C07", {"outcome"})],
     "every single-character edit (delete, insert, replace over a 17..27 symbol alphabet, transpose) of the canonical spellings, plus ill-typed / out-of-range abstract queries; the recogniser decides validity; invalid ones must be rejected by parse_json_path and JsonPath::query, valid ones accepted; " + GR,
     COMMON_ASSUME + ["strings the properties do not speak about (unknown function names, blanks inside singular-query brackets, huge number literals) are labelled unscoped and skipped"])
-PROPS["C13"] = make_prop("C13", [GS("C13", "C13", "order,accept")],
+PROPS["C13"] = make_prop("C13", [GS("C13", "C13", "order,accept"), TE("C13", {"ast"})],
     "all spellings within the variation budget of each abstract query, evaluated on three probe documents: each must return the specification's nodelist for the ABSTRACT query in order (so all spellings agree); spec-side invariant SpellingSame; " + GR,
     COMMON_ASSUME)
 
